@@ -53,7 +53,7 @@ def averager_schedule(dc, sc, res, rng, label):
     else:
         base = dc.Cache(d, timeout=0)
         caches = [base if topo == 'shared' else dc.Cache(d, timeout=0) for _ in range(n)]
-    sch = Sched(rng, clock, strategy=rng.choice(['random', 'preempt', 'random']),
+    sch = Sched(rng, clock, strategy=rng.choice(['random', 'preempt', 'random', 'ops']),
                 preempt_points={rng.randrange(0, 150) for _ in range(3)})
     rec = Recorder(sch)
 
@@ -204,7 +204,7 @@ def throttle_run(dc, sc, res, rng, label):
     pattern = gen.pick(rng, ['burst', 'uniform', 'random', 'idle-then-burst'])
     cache = dc.Cache(d, timeout=0)
     caches = [cache if rng.random() < 0.5 else dc.Cache(d, timeout=0) for _ in range(ncallers)]
-    sch = Sched(rng, clock, strategy=rng.choice(['random', 'preempt', 'random']), max_steps=40000,
+    sch = Sched(rng, clock, strategy=rng.choice(['random', 'preempt', 'random', 'ops']), max_steps=40000,
                 preempt_points={rng.randrange(0, 200) for _ in range(3)})
     starts = []          # virtual start times
     arrivals = []
